@@ -14,6 +14,9 @@ mod c10;
 mod c11;
 mod c12;
 mod c13;
+mod c14;
+mod c15;
+mod cli;
 mod c20;
 mod o1;
 mod space;
@@ -37,6 +40,10 @@ fn main() {
         "c12" => c12::run(),
         "c13" => c13::run(),
         "c20" => c20::run(),
+        "c14" => c14::run(),
+        "c14-child" => c14::child(&args[2], &args[3]),
+        "c15" => c15::run(),
+        "c15-child" => c15::child(&args[2], &args[3], args[4].parse().unwrap_or(1), args[5].parse().unwrap_or(2), args[6] == "1"),
         #[cfg(ragc_verif_sched)]
         "c06-wake" => c06w::run(),
         #[cfg(ragc_verif_sched)]
